@@ -195,19 +195,21 @@ func (s *Service) Message(ctx context.Context, duty *synccommitteemessenger.Duty
 	s.UpdateSyncCommitteeDataRecord(duty.Slot(), *beaconBlockRoot, duty.ContributionIndices())
 
 	// Create a fixed size array so that we can map each signature to the corresponding account.
-	accounts := make([]e2wtypes.Account, len(validatorIndices))
-	countActive := 0
-	for i := range validatorIndices {
-		account := duty.Account(validatorIndices[i])
+	// Only pass members for which we have an account to the signer; a member without
+	// an account (or signature) must not stop the other members from messaging.
+	accounts := make([]e2wtypes.Account, 0, len(validatorIndices))
+	accountValidatorIndices := make([]phase0.ValidatorIndex, 0, len(validatorIndices))
+	for _, validatorIndex := range validatorIndices {
+		account := duty.Account(validatorIndex)
 		if account == nil {
 			s.log.Debug().Msg("Account nil; likely exited validator still in sync committee")
 			continue
 		}
-		countActive++
-		accounts[i] = account
+		accounts = append(accounts, account)
+		accountValidatorIndices = append(accountValidatorIndices, validatorIndex)
 	}
 	// Return early if we have no active accounts.
-	if countActive == 0 {
+	if len(accounts) == 0 {
 		return msgs, nil
 	}
 
@@ -217,28 +219,25 @@ func (s *Service) Message(ctx context.Context, duty *synccommitteemessenger.Duty
 		return nil, errors.Wrap(err, "failed to sign sync committee messages")
 	}
 
-	for i, account := range accounts {
-		if account == nil {
-			continue
-		}
+	for i := range accounts {
 		signature := sigs[i]
 		if signature.IsZero() {
 			s.log.Error().
 				Uint64("slot", uint64(duty.Slot())).
-				Uint64("validator_index", uint64(validatorIndices[i])).
+				Uint64("validator_index", uint64(accountValidatorIndices[i])).
 				Msg("Failed to sign sync committee message; received zero signature")
-			return nil, errors.New("failed to sign sync committee message; received zero signature")
+			continue
 		}
 		s.log.Trace().
 			Uint64("slot", uint64(duty.Slot())).
-			Uint64("validator_index", uint64(validatorIndices[i])).
+			Uint64("validator_index", uint64(accountValidatorIndices[i])).
 			Stringer("signature", signature).
 			Msg("Signed sync committee message")
 
 		msg := &altair.SyncCommitteeMessage{
 			Slot:            duty.Slot(),
 			BeaconBlockRoot: *beaconBlockRoot,
-			ValidatorIndex:  validatorIndices[i],
+			ValidatorIndex:  accountValidatorIndices[i],
 			Signature:       signature,
 		}
 		msgs = append(msgs, msg)
